@@ -464,6 +464,12 @@ func (e *Exec) compare(op token.Token, a, b Val, ta, tb types.Type) Val {
 		}
 		return bv(r)
 	}
+	if f, ok := a.(FuncV); ok && f.ID != "" {
+		a = iv(f.ID) // a function literal of the function under contract: compared by identity (closure(k))
+	}
+	if f, ok := b.(FuncV); ok && f.ID != "" {
+		b = iv(f.ID)
+	}
 	if _, ok := a.(FuncV); ok {
 		return bv(boolConst(op == token.NEQ))
 	}
